@@ -13,7 +13,7 @@ use crate::{
 
 /// Parsed form of one of the four well-formed retry tags.
 pub fn parse_retry_tag(t: &str) -> Option<(Option<usize>, Option<u64>)> {
-    // retry | retry(N) | retry.after(Dms) | retry(N).after(Dms)
+    // retry | retry(N) | retry.after(Dms) | retry(N).after(Dms), D also in `us`; the delay is returned in microseconds
     let rest = t.strip_prefix("retry")?;
     let (n, rest) = if let Some(r) = rest.strip_prefix('(') {
         let (num, rest) = r.split_once(')')?;
@@ -24,8 +24,13 @@ pub fn parse_retry_tag(t: &str) -> Option<(Option<usize>, Option<u64>)> {
     if rest.is_empty() {
         return Some((n, None));
     }
-    let d = rest.strip_prefix(".after(")?.strip_suffix("ms)")?;
-    Some((n, Some(d.parse().ok()?)))
+    let d = rest.strip_prefix(".after(")?.strip_suffix(')')?;
+    let us = match (d.strip_suffix("ms"), d.strip_suffix("us")) {
+        (Some(ms), _) => ms.parse::<u64>().ok()? * 1000,
+        (_, Some(us)) => us.parse::<u64>().ok()?,
+        _ => return None,
+    };
+    Some((n, Some(us)))
 }
 
 /// Hand-written evaluators for the generator's fixed filter expressions.
@@ -41,7 +46,7 @@ pub fn eval_filter(expr: &str, tags: &[&str]) -> bool {
     }
 }
 
-/// Retry budget and delay (ms) a scenario must get, written from the C18
+/// Retry budget and delay (microseconds) a scenario must get, written from the C18
 /// statement: nearest tag, then CLI, then builder, then (1, none).
 pub fn expected_retry(
     f: &FeatSpec,
@@ -52,7 +57,7 @@ pub fn expected_retry(
     let find = |tags: &[String]| tags.iter().find_map(|t| parse_retry_tag(t));
     let tag = find(&s.tags).or_else(|| r.and_then(|r| find(&r.tags))).or_else(|| find(&f.tags));
     let conf_retry = cfg.cli_retry.or(cfg.b_retry);
-    let conf_after = cfg.cli_retry_after_ms.or(cfg.b_retry_after_ms);
+    let conf_after = cfg.cli_retry_after_us.or(cfg.b_retry_after_us);
     let filter = cfg.cli_filter.as_ref().or(cfg.b_filter.as_ref());
     if let Some((n, d)) = tag {
         return Some((n.or(conf_retry).unwrap_or(1), d.or(conf_after)));
